@@ -139,9 +139,37 @@ def slots_stream(names: int, prefixes: int):
     return jwire.write_delimited([jwire.enc_frame(rows)]), expect
 
 
+def optrow_stream(n: int, delimited: bool, names: int = 16):
+    """A producer's stream whose options row carries a stream name of n bytes: in non-delimited
+    form the second byte of the stream is the length of that row, which takes every value."""
+    opts = {"stream_name": "s" * n, "physical_type": 1, "logical_type": 1,
+            "max_name_table_size": names, "max_prefix_table_size": 4,
+            "max_datatype_table_size": 4, "version": 1}
+    rows = [jwire.mkrow("options", opts),
+            jwire.mkrow("prefix", {"id": 0, "value": "http://p/"}),
+            jwire.mkrow("name", {"id": 0, "value": "a"}),
+            jwire.mkrow("name", {"id": 0, "value": "b"})]
+    a, b = ("I", "http://p/a"), ("I", "http://p/b")
+    rows.append(jwire.mkrow("triple", {"s": ("iri", 1, 0), "p": ("iri", 0, 1),
+                                       "o": ("iri", 0, 0)}))
+    rows.append(jwire.mkrow("triple", {"o": ("literal", "x", None, None)}))
+    frame = jwire.enc_frame(rows)
+    expect = [(a, a, b), (a, a, ("L", "x", None, None))]
+    return (jwire.write_delimited([frame]) if delimited else frame), expect
+
+
 def run_slots(case: dict) -> list[tuple[str, str]]:
-    data, expect = slots_stream(*case["slots"])
-    _, per = jspec.decode_frames(jwire.read_delimited(data))
+    if "optrow" in case:
+        n, delimited, names = case["optrow"]
+        data, expect = optrow_stream(n, delimited, names)
+        frames = jwire.read_delimited(data) if delimited else jwire.read_single(data)
+        _, per = jspec.decode_frames(frames)
+        if [T.norm_st(s) for s in jspec.statements(per)] != expect:
+            raise HarnessError(f"options-row stream {case} does not denote what it should")
+        case = {"slots": f"options row with a {n}-byte name, delimited={delimited}"}
+    else:
+        data, expect = slots_stream(*case["slots"])
+        _, per = jspec.decode_frames(jwire.read_delimited(data))
     if [T.norm_st(s) for s in jspec.statements(per)] != expect:
         raise HarnessError(f"slots stream {case} does not denote what it should")
     fails = []
@@ -174,7 +202,19 @@ def slots_shard(job) -> dict:
         for where, msg in run_slots(case):
             acc.violation({"parser": where, "deviations": "extreme-slots"}, f"{msg}; case={case}",
                           case)
-    acc.extra = {"kinds": {"extreme-slots": len(SLOT_SIZES)}, "nodes": 0}
+    n_opt = 0
+    for names in (16, 4000):
+        for n in range(0, 200):
+            for delimited in (False, True):
+                case = {"optrow": [n, delimited, names]}
+                acc.evals += 1
+                acc.nontrivial += 1
+                n_opt += 1
+                for where, msg in run_slots(case):
+                    acc.violation({"parser": where, "deviations": "options-row-length"},
+                                  f"{msg}; case={case}", case)
+    acc.extra = {"kinds": {"extreme-slots": len(SLOT_SIZES), "options-row-length": n_opt},
+                 "nodes": 0}
     return acc.out()
 
 
@@ -276,7 +316,7 @@ def run(ctx) -> None:
 
 
 def replay(case: dict) -> list:
-    if "slots" in case:
+    if "slots" in case or "optrow" in case:
         DR.ensure_rdflib_plugin()
         return [m for _, m in run_slots(case)]
     ch, seq, ns, data, delimited = build(case, choice.Chooser(case["choices"]))
